@@ -46,6 +46,7 @@ M = [
     ("C17-cli-smooth-ignored", "C17", "cnvlib/commands.py", "        args.bootstrap,\n        args.smooth_bootstrap,\n", "        args.bootstrap,\n        False,\n"),
     ("C04-clip", "C04", "cnvlib/fix.py", "    weights = weights.clip(epsilon, 1.0)\n", "    weights = weights.clip(0, 1.0)\n"),
     ("C04-nan-weights-back", "C04", "cnvlib/fix.py", "    weights[np.isnan(weights)] = epsilon\n", ""),
+    ("C03-hmm-sd-floor-removed", "C03", "cnvlib/segmentation/hmm.py", "    stdev = max(stdev, 1e-3)\n", ""),
     # ---- C06
     ("C06-merge-abutting", "C06", "skgenome/merge.py", "group_keys = np.r_[False, gap_sizes > (-bp)].cumsum()", "group_keys = np.r_[False, gap_sizes >= (-bp)].cumsum()"),
     ("C06-merge-no-cummax", "C06", "skgenome/merge.py", "    gap_sizes = table.start.values[1:] - table.end.cummax().values[:-1]\n    group_keys",
